@@ -24,7 +24,7 @@ def n_cases(tier):
 
 
 def timeout(tier):
-    return 30.0 if tier == "quick" else 120.0
+    return 20.0 if tier == "quick" else 120.0
 
 
 def _schedule(rf, steps, stats_kinds):
